@@ -1,0 +1,36 @@
+//go:build verif
+
+// Package verifhook provides pause/observation points for external
+// verification tooling (build tag `verif`). With no handler registered the
+// functions do nothing, so a verif build behaves like the plain build.
+package verifhook
+
+import "sync/atomic"
+
+type handlers struct {
+	at  func(point string)
+	mut func(kind, arg string)
+}
+
+var cur atomic.Pointer[handlers]
+
+// SetHandlers registers the handlers (nil = none).
+func SetHandlers(at func(point string), mut func(kind, arg string)) {
+	cur.Store(&handlers{at: at, mut: mut})
+}
+
+// At is a named pause point.
+func At(point string) {
+	h := cur.Load()
+	if h != nil && h.at != nil {
+		h.at(point)
+	}
+}
+
+// Mut announces a persistent-state mutation that is about to happen.
+func Mut(kind, arg string) {
+	h := cur.Load()
+	if h != nil && h.mut != nil {
+		h.mut(kind, arg)
+	}
+}
